@@ -7,6 +7,9 @@ structure St where
   cfg : Cfg := ⟨[], [], []⟩
   types : Option (List DataType) := none
   table : List (List Val) := []
+  -- the table name cannot be quoted in the program's own catalog query (it holds a quote): the
+  -- column types cannot be read and the program refuses to run
+  badTable : Bool := false
 
 def typeCode : DataType → Nat
   | .int => 0 | .varchar => 1 | .boolean => 2 | .bigint => 3
@@ -19,9 +22,10 @@ def stepLine (st : St) (line : String) : St × List String :=
   match words line with
   | ["case", _] => ({}, [])
   | "schema" :: ws => ({ st with cfg := { st.cfg with schema := Tuple.parseSchema ws } }, [])
+  | ["table", h] => ({ st with badTable := ((bytesOfHex h).getD []).any fun b => b == 39 || b == 92 }, [])
   | ["map", dst, src, _] =>
     let cfg := { st.cfg with dstCols := dst.splitOn ",", srcCols := (src.splitOn ",").map natOr }
-    let ty := colTypes cfg.schema cfg.dstCols
+    let ty := if st.badTable then none else colTypes cfg.schema cfg.dstCols
     ({ st with cfg := cfg, types := ty, table := [] },
       [match ty with
        | some ts => "types " ++ ",".intercalate (ts.map fun t => toString (typeCode t))
@@ -52,6 +56,7 @@ the declarative per-field conversion, independently of the import loop. -/
 structure J where
   caseId : String := "?"
   cfg : Cfg := ⟨[], [], []⟩
+  badTable : Bool := false
   types : Option (List DataType) := none
   expected : List (List Val) := []     -- rows that must be there, in order
   events : List Bool := []
@@ -63,9 +68,10 @@ def judgeLine (j : J) (op : String) (outs : List String) : J × List String :=
   match words op with
   | ["case", n] => ({ caseId := n }, [])
   | "schema" :: ws => ({ j with cfg := { j.cfg with schema := Tuple.parseSchema ws } }, [])
+  | ["table", h] => ({ j with badTable := ((bytesOfHex h).getD []).any fun b => b == 39 || b == 92 }, [])
   | ["map", dst, src, _] =>
     let cfg := { j.cfg with dstCols := dst.splitOn ",", srcCols := (src.splitOn ",").map natOr }
-    ({ j with cfg := cfg, types := colTypes cfg.schema cfg.dstCols, expected := [] }, [])
+    ({ j with cfg := cfg, types := (if j.badTable then none else colTypes cfg.schema cfg.dstCols), expected := [] }, [])
   | "rec" :: ws =>
     match j.types with
     | none => (j, [])
@@ -82,6 +88,11 @@ def judgeLine (j : J) (op : String) (outs : List String) : J × List String :=
       match expectedRow j.cfg ts (parseRec ws) with
       | some row => ({ j with expected := j.expected ++ [row] }, [])
       | none => (j, [])
+  | "program" :: _ =>
+    -- the real program must not crash, whatever its arguments name
+    match outs.find? (fun o => o.startsWith "runerr" && (o.splitOn "panic").length > 1) with
+    | some o => (j, [s!"VIOLATION case={j.caseId} sig=csv:program-panic got=[{(o.take 200).toString}]"])
+    | none => (j, [])
   | ["prog-dump"] =>
     let got := outs.filter (·.startsWith "row ")
     let want := j.expected.map showRow
